@@ -1040,6 +1040,14 @@ fn check(c: &Case) -> Verdict {
         {
             return Verdict::fail_sig("function-argument-product-undefined-operation", detail);
         }
+        // a sum/difference inside a function argument with an unevaluated min/max/clamp operand
+        if head.starts_with("Undefined operation \"")
+            && (head.contains(" + ") || head.contains(" - "))
+            && (head.contains("min(") || head.contains("max(") || head.contains("clamp("))
+            && has_fun_with_op_arg(&src_tree, &['+', '-'])
+        {
+            return Verdict::fail_sig("function-argument-sum-with-calculation-undefined-operation", detail);
+        }
     }
     Verdict::fail(detail)
 }
